@@ -6,6 +6,7 @@ import KvarnModel.Drv.C16
 import KvarnModel.Drv.C15
 import KvarnModel.Drv.C14
 import KvarnModel.Drv.C01
+import KvarnModel.Drv.C02
 import KvarnModel.Drv.C07
 import KvarnModel.Drv.C06
 import KvarnModel.Drv.C03
@@ -37,6 +38,7 @@ def dispatchLine (line : String) : String :=
       | ["c01", f] => Drv.C01.handle (f :: args)
       | ["c07", f] => Drv.C07.handle (f :: args)
       | ["c06", f] => Drv.C06.handle (f :: args)
+      | ["c02", f] => Drv.C02.handle (f :: args)
       | ["c03", f] => Drv.C03.handle' (f :: args)
       | ["c05", f] => Drv.C05.handle (f :: args)
       | ["c13", f] => Drv.C13.handle (f :: args)
